@@ -68,7 +68,7 @@ func H_Lifecycle_Two() {
 	}
 	lifecycle(mk, inbox, &bad, ssid)
 	if vsym.Native() {
-		raceDrive(mk(), inbox)
+		raceDrive(mk, inbox)
 	}
 }
 
